@@ -74,7 +74,7 @@ func branchesReposDecode(b []byte) ([]BranchRepos, error) {
 		return nil, fmt.Errorf("unsupported BranchRepos encoding version %d", v)
 	}
 
-	l := r.uvarint() // Length
+	l := r.length() // Length
 	brs := make([]BranchRepos, l)
 
 	for i := range l {
@@ -167,7 +167,7 @@ func stringSetDecode(b []byte) (map[string]struct{}, error) {
 	}
 
 	// Length
-	l := r.uvarint()
+	l := r.length()
 	set := make(map[string]struct{}, l)
 
 	for range l {
@@ -184,7 +184,23 @@ type binaryReader struct {
 
 func (b *binaryReader) uvarint() int {
 	x, n := binary.Uvarint(b.b)
-	if n < 0 {
+	if n <= 0 {
+		// n == 0: the input ends in the middle of a varint.
+		b.b = nil
+		b.err = errors.New("malformed RepoBranches")
+		return 0
+	}
+	b.b = b.b[n:]
+	return int(x)
+}
+
+// length reads a uvarint that is used as a length or an element count. Every
+// byte and every element takes at least one byte of input, so a value larger
+// than the remaining input is malformed. This bounds what callers allocate
+// and how often they loop, and keeps the value a non-negative int.
+func (b *binaryReader) length() int {
+	x, n := binary.Uvarint(b.b)
+	if n <= 0 || x > uint64(len(b.b)-n) {
 		b.b = nil
 		b.err = errors.New("malformed RepoBranches")
 		return 0
@@ -194,7 +210,7 @@ func (b *binaryReader) uvarint() int {
 }
 
 func (b *binaryReader) str() string {
-	l := b.uvarint()
+	l := b.length()
 	if l > len(b.b) {
 		b.b = nil
 		b.err = errors.New("malformed RepoBranches")
@@ -206,7 +222,7 @@ func (b *binaryReader) str() string {
 }
 
 func (b *binaryReader) bitmap() *roaring.Bitmap {
-	l := b.uvarint()
+	l := b.length()
 	if l > len(b.b) {
 		b.b = nil
 		b.err = errors.New("malformed BranchRepos")
